@@ -148,7 +148,8 @@ fn e_assignment(x: &Assignment) -> Sx {
                 DataValue::Null => l(vec![a(0)]),
                 DataValue::Bool(x) => l(vec![a(1), b(*x)]),
                 DataValue::String(s) => l(vec![a(2), e_str(s)]),
-                _ => l(vec![a(3)]),
+                DataValue::Int(z) => l(vec![a(3), e_big(*z as i128)]),
+                _ => l(vec![a(4)]),
             },
         ]),
         _ => l(vec![a(9)]),
